@@ -310,7 +310,7 @@ def affine_variant(sc, a, b, label):
 
 
 AFFINE_EVERY = {'C01': 9, 'C02': 9, 'C03': 9, 'C04': 6, 'C05': 5, 'C06': 4, 'C07': 9, 'C09': 6, 'C10': 6, 'C11': 6,
-                'C14': 5, 'C15': 5, 'C16': 9, 'C17': 9, 'C18': 5, 'C20': 9}
+                'C14': 5, 'C15': 5, 'C16': 9, 'C17': 9, 'C18': 2, 'C20': 9}
 
 
 OWN0_EVERY = {'C01': 8, 'C02': 8, 'C03': 4, 'C04': 6, 'C05': 6, 'C06': 5, 'C14': 5, 'C15': 4, 'C16': 8, 'C17': 5}
